@@ -537,7 +537,21 @@ class Checker:
 
     # ------------------------------------------------------------------ C02 (independent of the interpreter)
     def postcondition(self, op, m, pre, guards, rounds, before, prev_op, queued_before):
-        if len(pre) != 1 or queued_before or any(g['issue'] for g in guards) or any(r['vetoed'] for r in rounds): return
+        if queued_before or any(g['issue'] for g in guards) or any(r['vetoed'] for r in rounds) or 'queue-full-rejected' in m.notes: return
+        nodes = self.nodes
+        if len(pre) == 2 and pre[0][0] != SCHEDULE and pre[1][0] != SCHEDULE:
+            # two requests into different prongs of an orthogonal region do not conflict: both destinations must end up active
+            d1, d2 = pre[0][1], pre[1][1]
+            a1 = [d1] + self.ancestors(d1); a2 = set([d2] + self.ancestors(d2))
+            lca = next((x for x in a1 if x in a2), None)
+            if lca is not None and lca not in (d1, d2) and nodes[lca]['kind'] == 'O':
+                self.stats['C02.postconditions'] += 1
+                for d, other in ((d1, d2), (d2, d1)):
+                    if op.act[d] != '1':
+                        under = nodes[nodes[other]['parent']]['kind'] == 'O' or nodes[nodes[d]['parent']]['kind'] == 'O'
+                        self.v('C02', 'post|non-conflicting-request-of-the-batch-lost' + ('|destination-directly-under-orthogonal-region-re-resolves-sibling-prongs' if under else ''), op, {'requests': [pre[0][:2], pre[1][:2]], 'lost': d}); break
+            return
+        if len(pre) != 1: return
         k, d = pre[0][0], pre[0][1]
         if k == SCHEDULE: return
         nodes = self.nodes
@@ -547,6 +561,15 @@ class Checker:
         while s >= 0:
             if op.act[s] != '1': self.v('C02', 'post|destination-or-ancestor-not-active-after-approved-request|' + KIND_NAMES[k], op, {'destination': d, 'inactive': s}); return
             s = nodes[s]['parent']
+        # regions no request touches keep their sub-state
+        touched = set(self.ancestors(d)) | set(self.subtree(d))
+        for x in nodes:
+            r = x['id']
+            if x['kind'] != 'C' or r in touched or before[0][r] != '1' or op.act[r] != '1': continue
+            if prev_op.sub[r] != op.sub[r]:
+                par = nodes[d]['parent']
+                under = par >= 0 and nodes[par]['kind'] == 'O'
+                self.v('C02', 'post|untouched-region-changed-its-sub-state' + ('|destination-directly-under-orthogonal-region-re-resolves-sibling-prongs' if under else '|' + KIND_NAMES[k]), op, {'destination': d, 'region': r, 'before': prev_op.sub[r], 'after': op.sub[r]}); return
         # every region below the destination picks its sub-state by the request kind
         if k in (1, 2, 3):
             for r in self.subtree(d):
